@@ -13,7 +13,7 @@ git -C /repo worktree remove --force "$WT" 2>/dev/null; rm -rf "$WT"
 git -C /repo worktree add -q --detach "$WT" HEAD || exit 2
 mkdir -p "$WT/_seeded"; cp "$OUT/demo.py" "$WT/_seeded/"
 cd "$WT" || exit 2
-sed -i "s#/tmp/w[t0-9]_C[0-9]*#$WT#g" _seeded/demo.py
+sed -i "s#/tmp/w[t0-9][0-9]*_C[0-9]*#$WT#g" _seeded/demo.py
 timeout 900 /venv/bin/python _seeded/demo.py > /tmp/demo_clean_$ID.log 2>&1; RC_CLEAN=$?
 git apply "$OUT/patch.diff" || { echo "patch does not apply"; cd /; git -C /repo worktree remove --force "$WT"; exit 2; }
 timeout 900 /venv/bin/python _seeded/demo.py > /tmp/demo_changed_$ID.log 2>&1; RC_CHANGED=$?
